@@ -288,6 +288,14 @@ func TestC14(t *testing.T) {
 			{Op: "challenge", Label: c}, {Op: "scalar", Label: m, S: &one}, {Op: "challenge", Label: c}}, MutKind: "label"})
 		s.Rec.Label("forced_digest_in_[r,2^253)")
 	}
+	{ // a first challenge whose REDUCED value is below 2^224 (found once by a 2^29-hash search): its integer has an odd
+		// number of 32-bit words, fewer than four 64-bit ones; the challenge is re-absorbed, so every later one depends on it
+		m, c := hx.HexBytes([]byte("m")), hx.HexBytes([]byte("c"))
+		two := scalarSpec{Kind: "small", N: 2}
+		c14Part.EvalCase(s, c14Case{Protocol: "vt", Ops: []trOp{{Op: "msg", Label: m, Msg: hx.HexBytes([]byte("w224-466220963"))}, {Op: "challenge", Label: c},
+			{Op: "challenge", Label: c}, {Op: "scalar", Label: m, S: &two}, {Op: "challenge", Label: c}}, MutKind: "msg"})
+		s.Rec.Label("forced_challenge_below_2^224")
+	}
 	c14Part.Run(s, hx.PerShard(hx.Pick(64000, 4000000)))
 	c14Part.RunConcurrent(s, 8, hx.Pick(500, 8000))
 }
